@@ -312,6 +312,18 @@ def corpus():
         out.append((link_req([("a", ok), ("x", v)]), ("corpus", "malformed", "malformed-" + k)))
     # D11 (known finding): a PCM header with a start offset is re-homed with the bytes before the window
     out.append((link_req([("a", mds(seq=SEQ0, dblk=[(b"pcmh", 0, sample(0, 4, 12))], pcmd=bytes(range(16, 48))))]), ("corpus", "D11-start-offset")))
+    # a sample equal to a stored one plus a zero tail, then a third sample: the longer sample must
+    # not be matched against unallocated (zero) rom behind the stored one
+    base = fill(64, 5)
+    for tail in (1, 7, 32, 64):
+        sA = mds(seq=SEQ0, dblk=[(b"pcmh", 0, sample(0, 0, 64))], pcmd=base)
+        sB = mds(seq=SEQ0, dblk=[(b"pcmh", 0, sample(0, 0, 64 + tail))], pcmd=base + b"\0" * tail)
+        sC = mds(seq=SEQ0, dblk=[(b"pcmh", 0, sample(0, 0, 96))], pcmd=fill(96, 77))
+        out.append((link_req([("a", sA), ("b", sB), ("c", sC)]), ("corpus", "pcm-zero-tail")))
+        out.append((link_req([("b", sB), ("a", sA), ("c", sC)]), ("corpus", "pcm-zero-tail")))
+    # the same sample bytes at two rates: two headers
+    out.append((link_req([("a", mds(seq=SEQ0, dblk=[(b"pcmh", 0, sample(0, 0, 32, rate=8000))], pcmd=fill(32, 9))),
+                          ("b", mds(seq=SEQ0, dblk=[(b"pcmh", 0, sample(0, 0, 32, rate=16000))], pcmd=fill(32, 9)))]), ("corpus", "pcm-same-data-two-rates")))
     # name clashes
     out.append((link_req([(n, mds(grp=g, seq=SEQ0)) for n, g in [("a_b", b"x"), ("b", b"x a"), ("b", b"x_a"), ("min", b"x"), ("max", b"x"), ("", b"x")]]), ("corpus", "name-clash")))
     out.append((link_req([(n, ok) for n in ["a", "a", "a_1", "a", "a_1", "A 1"]]), ("corpus", "name-clash")))
